@@ -2,6 +2,22 @@
 the methods of Parser whose body mentions it) into lean/ShVerif/Gen/C07.lean.  The expectation
 they are compared with is hand-written in lean/ShVerif/Props/C07.lean (`parser_is_client`)."""
 GROUP = "C07"
+import os, re
+
+def _stop_block(path):
+    """the stop-word test: from `var enc [utf8.UTFMax]byte` to the `p.tok = _EOF` that follows it,
+    with all whitespace removed"""
+    try:
+        src = open(path).read()
+    except OSError:
+        return None
+    i = src.find("var enc [utf8.UTFMax]byte")
+    if i < 0:
+        return None
+    j = src.find("p.tok = _EOF", i)
+    if j < 0:
+        return None
+    return re.sub(r"\s+", "", src[i:j])
 
 def render(d, h):
     problems = []
@@ -27,6 +43,15 @@ def render(d, h):
         "(%s, %d)" % (h.lstr(f), int((cnt.get(f) or {}).get("next", 0))) for f in ("bs", "bsp")))
     if not cnt:
         problems.append("C07: extractor produced no syntax.byte_access_counts facts")
+    # the hook's StopAtHere is a transcription of the stop-word test of Parser.next (it cannot be
+    # reached in isolation): keep it identical, mechanically
+    repo = os.environ.get("VERIF_REPO", "/repo")
+    a = _stop_block(os.path.join(repo, "syntax", "lexer.go"))
+    b = _stop_block(os.path.join(repo, "syntax", "verif_c07.go"))
+    if a is None or b is None:
+        problems.append("C07: cannot locate the stop-word test in syntax/lexer.go or syntax/verif_c07.go")
+    elif a != b:
+        problems.append("C07: hook VerifLexer.StopAtHere is no longer a copy of the stop-word test in Parser.next (syntax/lexer.go); re-transcribe it")
     lines.append("\nend ShVerif.Gen.C07")
     h.put("C07", "\n".join(lines) + "\n")
     return problems
